@@ -625,7 +625,9 @@ inline void runC13(Ctx &c)
                 c.nontrivial(hashProblem(p));
             if (idx < 1)
                 c.wantSample();
-            auto s = makeSplineDur(p);
+            // the D-dimensional object may be a reused one (any history, either overload); the 1-D splines are fresh
+            bool viaPts = false;
+            auto s = makeSplineHist(c, r, p, viaPts);
             MatrixXd C = s->coeffs();
             const int nc = p.ncoef();
             if (!c.require("C13.shape", C.rows() == nc * p.N && C.cols() == p.dim, gkey(p, "shape")))
@@ -655,7 +657,7 @@ inline void runC13(Ctx &c)
             for (int j = 0; j < p.dim; ++j)
             {
                 Problem q = coordProblem(p, j);
-                auto s1 = makeSplineDur(q);
+                auto s1 = viaPts ? makeSplinePts(q) : makeSplineDur(q);
                 MatrixXd C1 = s1->coeffs();
                 Cst.col(j) = C1.col(0);
                 Grads g1 = s1->propagate(u.gC.col(j), VectorXd::Zero(p.N), false);
@@ -745,7 +747,7 @@ inline void runC13(Ctx &c)
                 Upstream uq = u;
                 for (int j = 0; j < p.dim; ++j)
                     uq.gC.col(j) = u.gC.col(perm[j]);
-                auto sq = makeSplineDur(q);
+                auto sq = viaPts ? makeSplinePts(q) : makeSplineDur(q);
                 MatrixXd Cq = sq->coeffs();
                 Grads gq = sq->propagate(uq.gC, uq.gT, false);
                 MatrixXd Cp(C.rows(), C.cols());
@@ -934,6 +936,28 @@ inline void runC14(Ctx &c)
                 c.check("C14.translation.energy_unchanged", scaledDiff(sq->energy(), E, (double)Eabs) / tol, 1.0, gkey(p, "translation"));
                 c.check("C14.translation.gradients_unchanged", std::max(gradsRel(sq->energyGrad(false), eg, egS), gradsRel(sq->propagate(u.gC, u.gT, false), pg, pgS)) / tol, 1.0, gkey(p, "translation"));
                 c.event("relation.translation");
+                if (exactTr && tol < 1e-10 && r.coin(0.5))
+                {
+                    // the translated object is re-planned with one waypoint moved by a single grid unit (tiny compared with the
+                    // offset): the relation must hold for the new data as well
+                    const int wi = r.range(0, p.N), wj = r.range(0, p.dim - 1);
+                    const double gu = std::ldexp(exactUnit, -20) * (double)r.range(1, 1024);
+                    Problem p2 = p, q2 = q;
+                    p2.P(wi, wj) += gu;
+                    q2.P(wi, wj) += gu;
+                    if ((LD)q2.P(wi, wj) == (LD)p2.P(wi, wj) + (LD)w(wj))
+                    {
+                        sq->updateDur(q2.T, q2.P, q2.t0, q2.bc);
+                        auto s2 = makeSplineDur(p2);
+                        MatrixXld C2 = s2->coeffs().cast<LD>();
+                        for (int i = 0; i < p.N; ++i)
+                            for (int j = 0; j < p.dim; ++j)
+                                C2(i * nc, j) += (LD)w(j);
+                        c.check("C14.translation.coeffs_after_small_replan", coeffError(q2, sq->coeffs(), C2, 1e-3) / tol, 1.0, gkey(p, "translation"));
+                        c.check("C14.translation.energy_after_small_replan", scaledDiff(sq->energy(), s2->energy(), (double)Eabs) / tol, 1.0, gkey(p, "translation"));
+                        c.event("relation.translation_exact_small_replan");
+                    }
+                }
                 break;
             }
             case 2: // scaling of the data
@@ -1237,13 +1261,58 @@ inline void runC10(Ctx &c)
                         }
                         else if (k == 2)
                             cur = old;
+                        else if (k == 3 && r.coin())
+                        {
+                            // the same horizon (start, bitwise the same end, segment count) split differently
+                            cur.T = old.T;
+                            cur.t0 = old.t0;
+                            if (resplitSameHorizon(r, cur))
+                                c.event("op.update_same_horizon_other_split");
+                        }
                         c.event("op.update_partly_unchanged");
                     }
                     else
                         cur = genProblem(r, od.first, od.second, N);
                     curEntry = r.range(0, 1);
+                    const int how = have ? r.range(0, 11) : 0;
+                    if (how == 9 || how == 10)
+                    {
+                        // boundary argument omitted = zero boundary state, whatever the object held before
+                        cur.bc.setZero(cur.dim);
+                        curEntry += 2;
+                    }
                     hh = mix64(hh, hashProblem(cur) + curEntry);
-                    if (curEntry == 0)
+                    if (how == 11 && step > 0)
+                    {
+                        // warm restart / re-timing: the object's own getters passed straight back with a new start time
+                        Problem old2;
+                        old2.order = od.first;
+                        old2.dim = od.second;
+                        old2.T = L->timeSegments();
+                        old2.N = (int)old2.T.size();
+                        old2.P = L->spacePoints();
+                        old2.bc = L->boundary();
+                        old2.t0 = r.coin(0.3) ? L->startTime() : r.uni(-5, 5);
+                        cur = old2;
+                        curEntry = 0;
+                        L->updateFromOwnGetters(0, cur.t0);
+                        trace.push_back("update(own getters) N=" + std::to_string(cur.N));
+                        c.event("op.update_from_own_getters");
+                    }
+                    else if (curEntry == 2)
+                    {
+                        L->updateDurDefaultBC(cur.T, cur.P, cur.t0);
+                        trace.push_back("update_durations (boundary omitted) N=" + std::to_string(cur.N));
+                        c.event("op.update_boundary_omitted");
+                    }
+                    else if (curEntry == 3)
+                    {
+                        curTp = cur.timePoints();
+                        L->updatePtsDefaultBC(curTp, cur.P);
+                        trace.push_back("update_timepoints (boundary omitted) N=" + std::to_string(cur.N));
+                        c.event("op.update_boundary_omitted");
+                    }
+                    else if (curEntry == 0)
                     {
                         L->updateDur(cur.T, cur.P, cur.t0, cur.bc);
                         trace.push_back("update_durations N=" + std::to_string(cur.N));
@@ -1305,7 +1374,7 @@ inline void runC10(Ctx &c)
                 std::vector<double> ts{cu.front() - 1.0, cu.front(), cu.back(), cu.back() + 2.0};
                 for (int q = 0; q < 3; ++q)
                     ts.push_back(r.uni(cu.front(), cu.back()));
-                auto F = curEntry == 0 ? makeSplineDur(cur) : makeSplinePts(cur);
+                auto F = curEntry == 0 ? makeSplineDur(cur) : curEntry == 1 ? makeSplinePts(cur) : curEntry == 2 ? (r.coin() ? makeSplineDurDefaultBC(cur) : makeSplineDur(cur)) : (r.coin() ? makeSplinePtsDefaultBC(cur) : makeSplinePts(cur));
                 const bool wp = r.coin(0.7);
                 Observables oF = observe(*F, u, ts, wp);
                 Observables oL = observe(*L, u, ts, wp);
